@@ -76,6 +76,8 @@ type Call struct {
 	Fault            FaultMode
 	Status           int
 	Body             []byte
+	ReqBody          []byte
+	Start            int64 // logical stamp when the handler started
 }
 
 type Net struct {
@@ -253,6 +255,7 @@ func (c *HTTPClient) Do(req *http.Request) (*http.Response, error) {
 		r2.Header = req.Header.Clone()
 		r2 = r2.WithContext(hctx)
 		rec := httptest.NewRecorder()
+		startStamp := simrt.Stamp()
 		e.handler.ServeHTTP(rec, r2)
 		res := rec.Result()
 		rb, _ := io.ReadAll(res.Body)
@@ -264,7 +267,7 @@ func (c *HTTPClient) Do(req *http.Request) (*http.Response, error) {
 			simrt.Event("HANDLER-PANIC %s@%s: %s", method, to, string(rb))
 		}
 		if n.OnReply != nil {
-			n.OnReply(Call{From: c.From, To: to, Method: method, Fault: mode, Status: res.StatusCode, Body: rb})
+			n.OnReply(Call{From: c.From, To: to, Method: method, Fault: mode, Status: res.StatusCode, Body: rb, ReqBody: body, Start: startStamp})
 		}
 		if mode == FaultDropResp {
 			return
